@@ -3,8 +3,10 @@
 mod c05;
 mod c11;
 mod c15;
+mod c16;
 mod c18;
 mod delays;
+mod inject;
 
 use pv::{run::main_entry, Ctx, Report, Rng, Spec, Tier};
 
@@ -60,6 +62,24 @@ fn spec_for(prop: &str, _tier: Tier) -> Option<Spec> {
 		.require("deferred_commits", 5)
 		.require("completion_checks", 10)
 		.budget(45, 600),
+		"C16" => {
+			let mut s = Spec::new(
+				"C16",
+				"fault_enumeration",
+				"Threaded half: a case is one history with LIVE background workers. A base of 10-60 transactions is made durable by a clean shutdown; after reopening, 2 committer threads (serialised by one mutex, so the order of the accepted transactions is known) and a reader run while, from a seeded call count on, every write / read / fsync+fdatasync / msync / ftruncate / unlink (one class, or all) that the process makes on a log, table, index or ref-count file of the database fails with EIO (libc interposition inside the harness binary; the failing call is made by whichever worker thread gets there), persistently. Oracle: once a worker's call failed, commits must be refused with the background error within 30 s (else fault_not_reported); every recorded read returns a value written by an accepted transaction and not older than the last accepted write that had returned before the read began; with everything stopped every key shows the last accepted write; no thread panics; drop returns (half of the cases with the fault still present); with the fault gone the directory reopens to S_m with base <= m <= accepted (m = accepted when no call failed), and a continuation (more transactions, clean restart) matches the model re-based at S_m. evaluations = reads + final reads + refusal / prefix / continuation checks; distinct_nontrivial = distinct (failing class, always_flush, index growth, fault present at drop, fault hit a live worker, fault hit the shutdown, everything / proper prefix recovered) classes.",
+			)
+			.require("faults_delivered_to_live_workers", 20)
+			.require("refusals_after_fault", 20)
+			.require("reopen_prefix_checks", 40)
+			.require("continuation_checks", 40)
+			.require("faults_delivered_during_drop", 3)
+			.budget(45, 400);
+			s.case_timeout_s = 90;
+			// the handle must go away after a failure ("stops the writer cleanly"): a drop or a commit
+			// call that makes no progress for 90 s is reported with the thread states
+			s.hang_is_violation = true;
+			s
+		},
 		"C18" => Spec::new(
 			"C18",
 			"exploration",
@@ -103,6 +123,7 @@ fn run_one(ctx: &Ctx, rep: &mut Report, case_seed: u64, variant: u64) {
 		"C05" => c05::run_case(ctx, rep, case_seed, variant),
 		"C11" => c11::run_case(ctx, rep, case_seed, variant),
 		"C15" => c15::run_case(ctx, rep, case_seed, variant),
+		"C16" => c16::run_case(ctx, rep, case_seed, variant),
 		"C18" => c18::run_case(ctx, rep, case_seed, variant),
 		_ => {},
 	}
